@@ -190,7 +190,7 @@ def r09_1(ctx, run, rule='R09.1'):
         names = [v['name'] for v in f.adts['jsonpath::path::' + enum]['variants']]
         dt = display_table(ctx, impl)
         if dt is None:
-            run.violation(rule, impl, 'display', 'Display impl not found (anchor lost)')
+            run.undecided(rule, impl, 'display', 'Display impl not found (anchor lost)')
             continue
         for vi, alts in sorted((k, v) for k, v in dt.items() if k is not None):
             name = names[vi]
@@ -217,7 +217,7 @@ def r09_1(ctx, run, rule='R09.1'):
     for fn, tok, op in (('jsonpath::parser::expr_and', '&&', 'And'), ('jsonpath::parser::expr_or', '||', 'Or')):
         b = f.bodies.get(fn)
         if b is None:
-            run.violation(rule, fn, 'connective', 'function not found (anchor lost)')
+            run.undecided(rule, fn, 'connective', 'function not found (anchor lost)')
             continue
         tags = set()
         for q in Explorer(b, max_paths=50).explore():
@@ -315,7 +315,7 @@ def whole_input(ctx, run, rule, fn, err_variant):
     f = ctx.facts
     b = f.bodies.get(fn)
     if b is None:
-        run.violation(rule, fn, 'whole-input', 'function not found (anchor lost)')
+        run.undecided(rule, fn, 'whole-input', 'function not found (anchor lost)')
         return
     ps, _ = explore(b)
     n = 0
@@ -356,10 +356,14 @@ def r09_4(ctx, run, rule, roots):
 
 # ------------------------------------------------------------------ R09.6 / R02.4 escape widths
 
+UNREC = {}
+
+
 def scanner_widths(ctx):
     """Widths (bytes skipped from the backslash) per escape form in the pass-1 scanners."""
     f = ctx.facts
     out = {}
+    UNREC.clear()
     b = f.bodies.get('jsonpath::parser::check_escaped')
     if b is not None:
         ws = set()
@@ -390,6 +394,12 @@ def scanner_widths(ctx):
                         tot += 1
                     elif called(e[1], 'Parser::step_by') and len(e[2]) == 2 and const_of(e[2][1]) is not None:
                         tot += const_of(e[2][1])
+                    elif e[1] in f.bodies and e[2] and not called(e[1], 'Parser::check_next', 'Parser::check_next_either', 'Parser::check_digit', 'Parser::error',
+                                                                  'Parser::must_is', 'Parser::must_either', 'Parser::next'):
+                        # another method of the parser may move the cursor: the width of this path is not known
+                        a0 = e[5]['args'][0] if e[5].get('args') else None
+                        if a0 is not None and a0.get('k') in ('copy', 'move') and str(b.local_ty(a0['place']['local']).get('s', '')).startswith('&mut'):
+                            UNREC.setdefault('parse_json_string', set()).add(e[1].split('::')[-1])
                 ws.add(tot)
         out['parse_json_string'] = ws
     return out
@@ -427,7 +437,7 @@ def r_widths(ctx, run, rule):
     sw = scanner_widths(ctx)
     dw = decoder_widths(ctx)
     if dw is None:
-        run.violation(rule, 'util::parse_escaped_string', 'widths', 'decoder not found (anchor lost)')
+        run.undecided(rule, 'util::parse_escaped_string', 'widths', 'decoder not found (anchor lost)')
         return
     # decoder: plain escapes 2 bytes; one \\u escape 6 or 8 (braced); a surrogate pair consumes two escapes
     single = set(dw.get('plain', set())) | {w for w in dw.get('u1', set())}
@@ -438,6 +448,10 @@ def r_widths(ctx, run, rule):
     for name, ws in sw.items():
         fn = 'jsonpath::parser::check_escaped' if name == 'check_escaped' else "parser::Parser::<'a>::parse_json_string"
         ok = ws == want
+        if not ok and (not ws or UNREC.get(name)):
+            run.undecided(rule, fn, 'scanner-widths', f'the escape-skipping code of the scanning pass is not in the shape this rule reads (widths found: {sorted(ws)}; '
+                          f'cursor moved by {sorted(UNREC.get(name, []))}): its agreement with the decoding pass is not decided')
+            continue
         (run.proved if ok else run.violation)(rule, fn, 'scanner-widths', 'skips 2 / 6 / 8 bytes from the backslash, exactly what the decoding pass consumes' if ok else
                                                f'the scanning pass skips {sorted(ws)} bytes per escape but the decoding pass consumes 2 / 6 / 8: the two passes disagree on where an escape ends')
     # callers of parse_string are exactly the scanners (side condition of the data[0] assumptions)
@@ -488,7 +502,7 @@ def r09_7(ctx, run, rule='R09.7'):
     tabs = alt_tables(ctx, ('jsonpath::parser::path_value',))
     f = ctx.facts
     if not tabs:
-        run.violation(rule, 'jsonpath::parser::path_value', 'alternatives', 'alt table not found (anchor lost)')
+        run.undecided(rule, 'jsonpath::parser::path_value', 'alternatives', 'alt table not found (anchor lost)')
         return
     fn, members, e = tabs[0]
     kinds = []
@@ -526,7 +540,7 @@ def r16_4(ctx, run, rule='R16.4'):
     dt = display_table(ctx, "<keypath::KeyPath<'a> as std::fmt::Display>::fmt")
     f = ctx.facts
     if dt is None:
-        run.violation(rule, 'keypath::KeyPath', 'display', 'Display impl not found (anchor lost)')
+        run.undecided(rule, 'keypath::KeyPath', 'display', 'Display impl not found (anchor lost)')
         return
     names = [v['name'] for v in f.adts['keypath::KeyPath']['variants']]
     got = {names[k]: v for k, v in dt.items() if k is not None}
@@ -560,7 +574,7 @@ def r09_11(ctx, run, rule='R09.11'):
     impl = "<jsonpath::path::Expr<'a> as std::fmt::Display>::fmt"
     b = f.bodies.get(impl)
     if b is None:
-        run.violation(rule, impl, 'parens', 'Display impl not found (anchor lost)')
+        run.undecided(rule, impl, 'parens', 'Display impl not found (anchor lost)')
         return
     ops = [v['name'] for v in f.adts['jsonpath::path::BinaryOperator']['variants']]
     loops = natural_loops(b)
